@@ -518,8 +518,8 @@ inline void gen_vars(GenCtx &g, const GenOpts &o, const std::string &prefix = ""
     for (int i = 0; i < na; ++i) {
       int a = g.new_var(prefix + "A", T_ARR, 0);
       g.arrs.push_back(a);
-      static const int64_t szs[] = {1, 2, 4, 8};
-      g.arr_esz[a] = szs[r.below(4)];
+      // word-level assumption: the element size is the byte width of the values stored (32-bit ints)
+      g.arr_esz[a] = 4;
     }
   }
 }
